@@ -277,6 +277,29 @@ def run_tests_traced(cfg, work, cov, failures, crashes, drifts):
     cov['drift_lines'] += ndr
 
 
+def extra_c03_collapse(tier, cov, failures):
+    """C03 through tetrahedral collapse_edge / split_*: the stage lives in the tet/hex module
+    (spec/OVMTet.tla: CollapsePropsFollow); its counts are merged into C03's evidence."""
+    import subprocess
+    r = subprocess.run([sys.executable, os.path.join(vlib.VERIF, 'bin', 'tethex_check.py'), 'C03', '--tier', tier],
+                       cwd=vlib.VERIF, stdout=subprocess.PIPE, stderr=subprocess.STDOUT, text=True, timeout=4 * 3600)
+    stats = None
+    for line in r.stdout.splitlines():
+        if line.startswith('C03STATS '):
+            stats = json.loads(line[len('C03STATS '):])
+        if line.startswith('VIOLATION property=C03'):
+            rp = line.split('replay=')[-1].strip()
+            failures.append(dict(msg='C03:collapse ' + line, path=[], script=rp, x=0, model=True, detail=r.stdout[-4000:], replay_path=rp))
+    if r.returncode not in (0, 1) or stats is None:
+        raise MachineryError('tethex C03 stage failed (exit %d):\n%s' % (r.returncode, r.stdout[-3000:]))
+    log('C03 collapse stage: %s' % json.dumps({k: stats.get(k) for k in ('states', 'transitions', 'traces_validated_against_impl', 'counters', 'violations', 'wall_s')}))
+    cov['states'] += stats.get('states', 0); cov['transitions'] += stats.get('transitions', 0)
+    cov['traces_validated_against_impl'] += stats.get('traces_validated_against_impl', 0)
+    cov['collapse_stage'] = {k: stats.get(k) for k in ('states', 'transitions', 'traces_validated_against_impl', 'counters', 'random_histories', 'configs', 'wall_s')}
+    if stats.get('samples'):
+        cov['samples'].append(dict(collapse_stage=stats['samples'][:1]))
+
+
 def run_check(prop, tier, seed, replay=None, sim_only=False, sim_num=None):
     t0 = time.time()
     cfg = CHECKS[prop]
@@ -330,6 +353,8 @@ def run_check(prop, tier, seed, replay=None, sim_only=False, sim_num=None):
             cov['drift_lines'] += agg['drift']
         if prop == 'C08' and not sim_only:
             extra_c08(work, variant, cov, failures)
+        if prop == 'C03' and not sim_only:
+            extra_c03_collapse(tier, cov, failures)
         if not sim_only and (tier == 'thorough' or prop in ('C01', 'C02')):
             run_tests_traced(cfg, work, cov, failures, crashes, drifts)
         sim = cfg.get('sim')
@@ -370,7 +395,9 @@ def run_check(prop, tier, seed, replay=None, sim_only=False, sim_num=None):
     rc = 0
     seen = set()
     for f, _ in viol:
-        if f.get('model'):
+        if f.get('replay_path'):
+            p = f['replay_path']
+        elif f.get('model'):
             p = os.path.join(vlib.RUN, 'replay', '%s-model-%d.txt' % (prop, len(seen)))
             os.makedirs(os.path.dirname(p), exist_ok=True)
             open(p, 'w').write(f.get('detail', ''))
